@@ -135,7 +135,7 @@ PROPS["C19"] = dict(
            ("c19_closure", "rc", dict(cases=6400, shards=16)),
            ("c19_sslio", "rc", dict(cases=2400, shards=8))],
     thorough=[("c19_closure", "enum", dict(shards=16)),
-              ("c19_closure", "rc", dict(cases=200000, shards=16)),
+              ("c19_closure", "rc", dict(cases=120000, shards=16)),
               ("c19_sslio", "rc", dict(cases=60000, shards=16))],
     floor=dict(quick=2000, thorough=20000),
 )
@@ -247,8 +247,8 @@ PROPS["C10"] = dict(
                  "4096-bit key generation only in thorough mode (cost)"],
     targets=[dict(name="c10_rsa", src="c10_rsa.cpp", flavour="san", libs=["-lcrypto", "-lgmp"])],
     quick=[("c10_rsa", "rc", dict(cases=6400, shards=16))],
-    thorough=[("c10_rsa", "rc", dict(cases=240000, shards=16))],
-    floor=dict(quick=1500, thorough=6000),
+    thorough=[("c10_rsa", "rc", dict(cases=160000, shards=16))],
+    floor=dict(quick=1500, thorough=4500),
 )
 
 PROPS["C11"] = dict(
@@ -265,8 +265,8 @@ PROPS["C11"] = dict(
                  "for 32-byte Curve25519 inputs no rejection is asserted (every string is a valid u)"],
     targets=[dict(name="c11_ec", src="c11_ec.cpp", flavour="san", libs=["-lcrypto"])],
     quick=[("c11_ec", "rc", dict(cases=9600, shards=16))],
-    thorough=[("c11_ec", "rc", dict(cases=400000, shards=16))],
-    floor=dict(quick=2500, thorough=40000),
+    thorough=[("c11_ec", "rc", dict(cases=160000, shards=16))],
+    floor=dict(quick=2500, thorough=20000),
 )
 
 PROPS["C18"] = dict(
@@ -393,8 +393,8 @@ PROPS["C04"] = dict(
     quick=[("c04_x509", "enum", dict(shards=16)),
            ("c04_x509", "rc", dict(cases=6400, shards=16))],
     thorough=[("c04_x509", "enum", dict(shards=16)),
-              ("c04_x509", "rc", dict(cases=600000, shards=16))],
-    floor=dict(quick=6000, thorough=100000),
+              ("c04_x509", "rc", dict(cases=240000, shards=16))],
+    floor=dict(quick=6000, thorough=60000),
 )
 
 import os as _os
